@@ -125,3 +125,265 @@ REF_D_TM = [
     ('    evals = np.array([eval0, eval1, eval2])\n    evecs = np.column_stack((evec0,evec1,evec2))',
      '    columns = []\n    for vector in (evec0, evec1, evec2):\n        columns.append(vector)\n    evals = np.array([eval0, eval1, eval2])\n    evecs = np.array(columns).T'),
 ]
+
+# ---- round 2: bolder restructurings written while hardening the rules (each list reproduces one whole-file refactoring)
+#  E  JVP rules made by a factory and registered by call, helper with bare matrices and keyword-only callables, jax.grad, custom_jvp by call,
+#     divided differences collected in a dictionary comprehension
+#  F  Denman-Beavers with a dictionary carry, module level step bound by a lambda, loop run by a private driver
+#  G  2x2 block solved by a private function returning a NamedTuple (no named half difference), matrix-vector products, spherical branch on
+#     whole arrays, np.take for the sort
+#  H  unit wrapper: max-abs norm with a floor instead of a guarded reciprocal, symmetrised input, broadcast normalisation; einsum spectral form
+#  J  vectorised tangent helper (meshgrid, array conditions, nested vmap), solver pivot by argmax / np.select
+REF_E_TM = [
+    ('# error as lam1 -> lam2.\ndef _symmetric_matrix_function_jvp_helper(func, relative_difference, primals, tangents):\n    C, = primals\n    Cdot, = tangents\n\n',
+     '# error as lam1 -> lam2.\ndef _symmetric_matrix_function_jvp_helper(C, Cdot, *, func, relative_difference):\n\n'),
+    ('\n    df = jax.jacfwd(func)\n    h_diag = jax.vmap(df)(lam)\n    def rd(x1, x2):\n        x2_safe = np.where(x2 == x1, x2 + 1.0, x2)\n        return np.where(x2 == x1, df(x1), relative_difference(x1, x2_safe))\n    h12 = rd(lam[0], lam[1])\n    h23 = rd(lam[1], lam[2])\n    h31 = rd(lam[2], lam[0])\n    h = np.array([[h_diag[0], h12, h31],\n                  [h12, h_diag[1], h23],\n                  [h31, h23, h_diag[2]]])\n    W = V.T@sym(Cdot)@V\n',
+     '\n    slope = jax.grad(func)\n    def rd(x1, x2):\n        distinct = x2 != x1\n        x2_safe = np.where(distinct, x2, x2 + 1.0)\n        return np.where(distinct, relative_difference(x1, x2_safe), slope(x1))\n    pairs = {(i, j): rd(lam[i], lam[j]) for i in range(3) for j in range(i + 1, 3)}\n    h = np.array([[slope(lam[i]) if i == j else pairs[(min(i, j), max(i, j))] for j in range(3)] for i in range(3)])\n    W = V.T@sym(Cdot)@V\n'),
+    ('\n@sqrt_symm.defjvp\ndef _sqrt_symm_jvp(primals, tangents):\n    primal_out = sqrt_symm(*primals)\n    return primal_out, _symmetric_matrix_function_jvp_helper(Math.safe_sqrt, _sqrt_relative_difference, primals, tangents)\n\n',
+     '\ndef _spectral_jvp(matrix_function, scalar_function, relative_difference):\n    """Build the JVP rule of a matrix function created from a scalar function."""\n    def rule(primals, tangents):\n        A = primals[0]\n        dA = tangents[0]\n        value = matrix_function(*primals)\n        tangent = _symmetric_matrix_function_jvp_helper(A, dA, func=scalar_function, relative_difference=relative_difference)\n        return value, tangent\n    return rule\n\nsqrt_symm.defjvp(_spectral_jvp(sqrt_symm, Math.safe_sqrt, _sqrt_relative_difference))\n\n'),
+    ('\n@exp_symm.defjvp\ndef _exp_symm_jvp(primals, tangents):\n    primal_out = exp_symm(*primals)\n    return primal_out, _symmetric_matrix_function_jvp_helper(np.exp, _exp_relative_difference, primals, tangents)\n\n\n@jax.custom_jvp\ndef log_symm(A):\n    """Compute the matrix logarithm of a symmetric positive definite matrix."""\n    return symmetric_matrix_function(A, np.log)\n\n',
+     '\nexp_symm.defjvp(_spectral_jvp(exp_symm, np.exp, _exp_relative_difference))\n\n\ndef _log_symm(A):\n    """Compute the matrix logarithm of a symmetric positive definite matrix."""\n    return symmetric_matrix_function(A, np.log)\n\nlog_symm = jax.custom_jvp(_log_symm)\n\n'),
+    ('\n@log_symm.defjvp\ndef _log_symm_jvp(primals, tangents):\n    primal_out = log_symm(*primals)\n    return primal_out, _symmetric_matrix_function_jvp_helper(np.log, _log_relative_difference, primals, tangents)\n\n',
+     '\nlog_symm.defjvp(_spectral_jvp(log_symm, np.log, _log_relative_difference))\n\n'),
+    ('    dA, dm = tangents\n    return pow_symm(A, m), _symmetric_matrix_function_jvp_helper(lambda x: np.power(x, m), lambda l1, l2: _pow_relative_difference(l1, l2, m), (A,), (dA,))\n',
+     '    dA, dm = tangents\n    callables = dict(func=lambda x: x**m, relative_difference=lambda l1, l2: _pow_relative_difference(l1, l2, m))\n    return pow_symm(A, m), _symmetric_matrix_function_jvp_helper(A, dA, **callables)\n'),
+]
+
+REF_F_LA = [
+    ('\ndef sqrtm_dbp(A):\n    """ Matrix square root by product form of Denman-Beavers iteration.\n    \n    Translated from the Matrix Function Toolbox\n',
+     '\ndef _determinantal_scale(M, dim):\n    return 1.0 / np.abs(np.linalg.det(M))**(1.0/(2.0*dim))\n\n\ndef _dbp_step(carry, *, dim, scaleTol):\n    """One step of the product form Denman-Beavers iteration on the carry dictionary."""\n    nearly_converged = carry["diff"] < scaleTol\n    g = np.where(nearly_converged, 1.0, _determinantal_scale(carry["M"], dim))\n    gg = g * g\n    Y = g * carry["X"]\n    Ms = gg * carry["M"]\n    N = np.linalg.inv(Ms)\n    I = np.identity(dim)\n    X = 0.5 * Y @ (I + N)\n    M = 0.5 * (I + 0.5 * (Ms + N))\n    return {"M": M,\n            "X": X,\n            "count": carry["count"] + 1,\n            "error": np.linalg.norm(M - I, \'fro\'),\n            "diff": np.linalg.norm(X - Y, \'fro\') / np.linalg.norm(X, \'fro\')}\n\n\ndef _run_dbp(A, dim, tol, maxIters, scaleTol):\n    start = dict(X=A, M=A, error=np.finfo(np.dtype("float64")).max, count=0,\n                 diff=2.0*scaleTol) # want to force scaling on first iteration\n    keep_going = lambda c: np.logical_and(c["count"] < maxIters, c["error"] > tol)\n    return jax.lax.while_loop(keep_going, lambda c: _dbp_step(c, dim=dim, scaleTol=scaleTol), start)\n\n\ndef sqrtm_dbp(A):\n    """ Matrix square root by product form of Denman-Beavers iteration.\n\n    Translated from the Matrix Function Toolbox\n'),
+    ('    """\n    dim        = A.shape[0]\n    tol        = 0.5 * np.sqrt(dim) * np.finfo(np.dtype("float64")).eps\n    maxIters   = 32\n    scaleTol   = 0.01\n\n    def scaling(M):\n        d  = np.abs(np.linalg.det(M))**(1.0/(2.0*dim))\n        g = 1.0 / d\n        return g\n    \n    def cond_f(loopData):\n        _,_,error,k,_ = loopData\n        p = np.array([k < maxIters, error > tol], dtype=bool)\n        return np.all(p)\n    \n    def body_f(loopData):\n        X, M, error, k, diff = loopData\n        g = np.where(diff >= scaleTol,\n                     scaling(M),\n                     1.0)\n        \n        X *= g\n        M *= g * g\n        \n        Y = X\n        N = np.linalg.inv(M)\n        I = np.identity(dim)\n        X = 0.5 * X @ (I + N)\n        M = 0.5 * (I + 0.5 * (M + N))\n        error = np.linalg.norm(M - I, \'fro\')\n        diff  = np.linalg.norm(X - Y, \'fro\') / np.linalg.norm(X, \'fro\')\n        k += 1\n        return (X, M, error, k, diff)\n\n    X0        = A\n    M0        = A\n    error0    = np.finfo(np.dtype("float64")).max\n    k0        = 0\n    diff0     = 2.0*scaleTol # want to force scaling on first iteration\n    loopData0 = (X0, M0, error0, k0, diff0)\n    \n    X,_,_,k,_ = jax.lax.while_loop(cond_f, body_f, loopData0)\n\n    return X,k\n\n',
+     '    """\n    dim = A.shape[0]\n    tol = 0.5 * np.sqrt(dim) * np.finfo(np.dtype("float64")).eps\n    final = _run_dbp(A, dim, tol, maxIters=32, scaleTol=0.01)\n    return final["X"], final["count"]\n\n'),
+]
+
+REF_G_TM = [
+    ('"""Provide differentiable operations on 3x3 tensors."""\n\n',
+     '"""Provide differentiable operations on 3x3 tensors."""\n\nfrom typing import Any, NamedTuple\n\n'),
+    ('    return dudX\n\n',
+     '    return dudX\n\nclass _BlockRoots(NamedTuple):\n    first: Any\n    second: Any\n\n\ndef _reduced_block_roots(xx, yy, xy_squared):\n    """Eigenvalues of the symmetric 2x2 matrix [[xx, xy], [xy, yy]] by the Wilkinson shift."""\n    half_gap = 0.5*(xx - yy)\n    direction = np.where(half_gap < 0.0, -1.0, 1.0)\n    first = yy + half_gap - direction*Math.safe_sqrt(half_gap*half_gap + xy_squared)\n    return _BlockRoots(first=first, second=xx + yy - first)\n\n\n'),
+    ('\n    k_atr11 = cxx*k_row1[0] + cxy*k_row1[1] + czx*k_row1[2]\n    k_atr21 = cxy*k_row1[0] + cyy*k_row1[1] + cyz*k_row1[2]\n    k_atr31 = czx*k_row1[0] + cyz*k_row1[1] + czz*k_row1[2]\n\n    a_atr12 = cxx*a_row2[0] + cxy*a_row2[1] + czx*a_row2[2]\n    a_atr22 = cxy*a_row2[0] + cyy*a_row2[1] + cyz*a_row2[2]\n    a_atr32 = czx*a_row2[0] + cyz*a_row2[1] + czz*a_row2[2]\n\n    rm2xx     = (k_row1[0]*k_atr11 + k_row1[1]*k_atr21 + k_row1[2]*k_atr31)*ki_ki\n    k_a_rm2xy = (k_row1[0]*a_atr12 + k_row1[1]*a_atr22 + k_row1[2]*a_atr32)\n    rm2yy     = (a_row2[0]*a_atr12 + a_row2[1]*a_atr22 + a_row2[2]*a_atr32)*ai_ai\n    rm2xy_rm2xy = k_a_rm2xy*k_a_rm2xy*ai_ai*ki_ki\n\n    #\n    # Wilkinson shift\n    #\n    b = 0.5*(rm2xx-rm2yy)\n\n    sqrtTerm = Math.safe_sqrt(b*b+rm2xy_rm2xy)*np.where(b >= 0.0, 1.0, -1.0)\n    #sqrtTerm = np.sqrt(b*b+rm2xy_rm2xy)*np.sign(b)\n    \n    eval0 = rm2yy + b - sqrtTerm\n    eval1 = rm2xx + rm2yy - eval0\n\n',
+     '\n    deviator_matrix = np.array([[cxx, cxy, czx],\n                                [cxy, cyy, cyz],\n                                [czx, cyz, czz]])\n    Dk = deviator_matrix @ k_row1\n    Da = deviator_matrix @ a_row2\n\n    rm2xx     = np.dot(k_row1, Dk)*ki_ki\n    k_a_rm2xy = np.dot(k_row1, Da)\n    rm2yy     = np.dot(a_row2, Da)*ai_ai\n    rm2xy_rm2xy = k_a_rm2xy*k_a_rm2xy*ai_ai*ki_ki\n\n    roots = _reduced_block_roots(rm2xx, rm2yy, rm2xy_rm2xy)\n    eval0 = roots.first\n    eval1 = roots.second\n\n'),
+    ('\n    eval0 = eval0 + c1\n    eval1 = eval1 + c1\n    eval2 = eval2 + c1\n    \n    c2tol = (c1*c1)*(-1.0e-30)\n\n    c2lsmall_neg = c2 < c2tol\n    \n    eval0 = if_then_else(c2lsmall_neg, eval0, c1)\n    eval1 = if_then_else(c2lsmall_neg, eval1, c1)\n    eval2 = if_then_else(c2lsmall_neg, eval2, c1)\n\n    evec0 = if_then_else(c2lsmall_neg, evec0, np.array([1.0, 0.0, 0.0]))\n    evec1 = if_then_else(c2lsmall_neg, evec1, np.array([0.0, 1.0, 0.0]))\n    evec2 = if_then_else(c2lsmall_neg, evec2, np.array([0.0, 0.0, 1.0]))\n    \n    evals = np.array([eval0, eval1, eval2])\n    evecs = np.column_stack((evec0,evec1,evec2))\n\n    #idx = np.arange(3)  # np.argsort(evals)\n    idx = np.argsort(evals)\n    \n    return evals[idx],evecs[:,idx]\n\n',
+     '\n    spherical = c2 >= -1.0e-30*c1**2\n\n    evals = np.where(spherical, c1*np.ones(3), c1 + np.array([eval0, eval1, eval2]))\n    evecs = np.where(spherical, np.identity(3), np.stack([evec0, evec1, evec2]).T)\n\n    order = np.argsort(evals)\n    return np.take(evals, order), np.take(evecs, order, axis=1)\n\n'),
+]
+
+REF_H_TM = [
+    ('def eigen_sym33_unit(tensor):\n    cmax = np.linalg.norm(tensor, ord=np.inf)\n    cmaxInv = if_then_else(cmax > 0.0, 1.0/cmax, 1.0)\n    scaledTensor = cmaxInv * tensor\n   \n    evals, evecs = eigen_sym33_non_unit(scaledTensor)\n    \n    evec0 = evecs[:,0]/np.linalg.norm(evecs[:,0])\n    evec1 = evecs[:,1]/np.linalg.norm(evecs[:,1])\n    evec2 = evecs[:,2]/np.linalg.norm(evecs[:,2])\n    \n    evecs = np.column_stack((evec0,evec1,evec2))\n    evals = cmax*evals\n\n    return (evals,evecs)\n\n',
+     'def eigen_sym33_unit(tensor):\n    size = np.max(np.abs(tensor))\n    floor = np.finfo(np.dtype("float64")).tiny\n    unit_size = sym(tensor) / np.maximum(size, floor)\n    spectrum = eigen_sym33_non_unit(unit_size)\n    lengths = np.sqrt(np.sum(spectrum[1]*spectrum[1], axis=0))\n    return size*spectrum[0], spectrum[1]/lengths[None, :]\n\n'),
+    ('    """Create a function on symmetric matrices from a scalar function."""\n    lam, V = eigen_sym33_unit(A)\n    return V@np.diag(func(lam))@V.T\n\n',
+     '    """Create a function on symmetric matrices from a scalar function."""\n    lam, V = eigen_sym33_unit(sym(A))\n    return np.einsum(\'ik,k,jk->ij\', V, func(lam), V)\n\n'),
+]
+
+REF_J_TM = [
+    ('\n    k_row1_0 = if_then_else(k0_largest, crow0[0], 0.0)   \\\n        +         if_then_else(k1_largest, crow1[0], 0.0) \\\n        +         if_then_else(k2_largest, crow2[0], 0.0)\n\n    k_row1_1 = if_then_else(k0_largest, crow0[1], 0.0)   \\\n        +         if_then_else(k1_largest, crow1[1], 0.0) \\\n        +         if_then_else(k2_largest, crow2[1], 0.0)\n\n    k_row1_2 = if_then_else(k0_largest, crow0[2], 0.0)   \\\n        +         if_then_else(k1_largest, crow1[2], 0.0) \\\n        +         if_then_else(k2_largest, crow2[2], 0.0)\n\n    k_row1 = np.array([k_row1_0, k_row1_1, k_row1_2])\n    \n',
+     '\n    shifted = np.array([crow0, crow1, crow2])\n    pivot = np.argmax(np.array([k0, k1, k2]))\n    k_row1 = shifted[pivot]\n    \n'),
+    ('\n    ki_ki = 1.0 / ( if_then_else(k0_largest, k0, 0.0)   \\\n                    + if_then_else(k1_largest, k1, 0.0) \\\n                    + if_then_else(k2_largest, k2, 0.0) )\n    \n',
+     '\n    ki_ki = 1.0 / np.select([pivot == 0, pivot == 1], [k0, k1], k2)\n    \n'),
+    ('    df = jax.jacfwd(func)\n    h_diag = jax.vmap(df)(lam)\n    def rd(x1, x2):\n        x2_safe = np.where(x2 == x1, x2 + 1.0, x2)\n        return np.where(x2 == x1, df(x1), relative_difference(x1, x2_safe))\n    h12 = rd(lam[0], lam[1])\n    h23 = rd(lam[1], lam[2])\n    h31 = rd(lam[2], lam[0])\n    h = np.array([[h_diag[0], h12, h31],\n                  [h12, h_diag[1], h23],\n                  [h31, h23, h_diag[2]]])\n    W = V.T@sym(Cdot)@V\n    h *= W\n\n    t00 = V[0].T@h@V[0]\n    t11 = V[1].T@h@V[1]\n    t22 = V[2].T@h@V[2]\n    t01 = 0.5*(V[0].T@h@V[1] + V[1].T@h@V[0])\n    t12 = 0.5*(V[1].T@h@V[2] + V[2].T@h@V[1])\n    t20 = 0.5*(V[2].T@h@V[0] + V[0].T@h@V[2])\n\n    sol = np.array([ [t00, t01, t20],\n                     [t01, t11, t12],\n                     [t20, t12, t22] ])\n\n    return sol\n\n',
+     "    df = jax.jacfwd(func)\n    lam_i, lam_j = np.meshgrid(lam, lam, indexing='ij')\n    repeated = lam_i == lam_j\n    lam_j_safe = np.where(repeated, lam_j + 1.0, lam_j)\n    slopes = jax.vmap(jax.vmap(df))(lam_i)\n    quotients = jax.vmap(jax.vmap(relative_difference))(lam_i, lam_j_safe)\n    h = np.where(repeated, slopes, quotients)\n    rotated = V.T@sym(Cdot)@V\n    return sym(V@(h*rotated)@V.T)\n\n"),
+]
+
+# ---- the three independent round-2 refactorings (/tmp/ref2/C12/r1..r3), kept as self-test variants
+R2_1_TM = [
+    ('"""Provide differentiable operations on 3x3 tensors."""\n\n',
+     '"""Provide differentiable operations on 3x3 tensors."""\n\nfrom functools import partial\nfrom typing import Callable, NamedTuple\n\n'),
+    ('\n# Helper function to define the JVP for any matrix function created from a\n# scalar function func.\n# To use, you must provide the function\n# relative_difference: lam1, lam2 -> (func(lam1) - func(lam2))/(lam1 - lam2)\n# Ideally, this should be formulated such that it does not suffer from cancellation\n# error as lam1 -> lam2.\ndef _symmetric_matrix_function_jvp_helper(func, relative_difference, primals, tangents):\n    C, = primals\n',
+     '\nclass _ScalarFunctionRule(NamedTuple):\n    """A scalar function together with what is needed to differentiate the\n    matrix function created from it.\n\n    func: the scalar function applied to the eigenvalues\n    relative_difference: lam1, lam2 -> (func(lam1) - func(lam2))/(lam1 - lam2)\n      Ideally, this should be formulated such that it does not suffer from\n      cancellation error as lam1 -> lam2.\n    """\n    func: Callable\n    relative_difference: Callable\n\n# Helper function to define the JVP for any matrix function created from a\n# scalar function, described by a _ScalarFunctionRule.\ndef _symmetric_matrix_function_jvp_helper(rule, primals, tangents):\n    func, relative_difference = rule\n    C, = primals\n'),
+    ('    return sol\n\n@jax.custom_jvp\ndef sqrt_symm(A):\n',
+     '    return sol\n\ndef _sqrt_relative_difference(lam1, lam2):\n    return 1/(np.sqrt(lam1) + np.sqrt(lam2))\n\n_SQRT_RULE = _ScalarFunctionRule(func=Math.safe_sqrt, relative_difference=_sqrt_relative_difference)\n\n@jax.custom_jvp\ndef sqrt_symm(A):\n'),
+    ('    """Square root of a symmetric positive semi-definite tensor."""\n    return symmetric_matrix_function(A, Math.safe_sqrt)\n\ndef _sqrt_relative_difference(lam1, lam2):\n    return 1/(np.sqrt(lam1) + np.sqrt(lam2))\n\n',
+     '    """Square root of a symmetric positive semi-definite tensor."""\n    return symmetric_matrix_function(A, _SQRT_RULE.func)\n\n'),
+    ('    primal_out = sqrt_symm(*primals)\n    return primal_out, _symmetric_matrix_function_jvp_helper(Math.safe_sqrt, _sqrt_relative_difference, primals, tangents)\n\n\n@jax.custom_jvp\ndef exp_symm(A):\n    """Compute the matrix exponential of a symmetric matrix."""\n    return symmetric_matrix_function(A, np.exp)\n\n',
+     '    primal_out = sqrt_symm(*primals)\n    return primal_out, _symmetric_matrix_function_jvp_helper(_SQRT_RULE, primals, tangents)\n\n\n'),
+    ('\n@exp_symm.defjvp\n',
+     '\n_EXP_RULE = _ScalarFunctionRule(func=np.exp, relative_difference=_exp_relative_difference)\n\n@jax.custom_jvp\ndef exp_symm(A):\n    """Compute the matrix exponential of a symmetric matrix."""\n    return symmetric_matrix_function(A, _EXP_RULE.func)\n\n@exp_symm.defjvp\n'),
+    ('    primal_out = exp_symm(*primals)\n    return primal_out, _symmetric_matrix_function_jvp_helper(np.exp, _exp_relative_difference, primals, tangents)\n\n\n@jax.custom_jvp\ndef log_symm(A):\n    """Compute the matrix logarithm of a symmetric positive definite matrix."""\n    return symmetric_matrix_function(A, np.log)\n\n',
+     '    primal_out = exp_symm(*primals)\n    return primal_out, _symmetric_matrix_function_jvp_helper(_EXP_RULE, primals, tangents)\n\n\n'),
+    ('\n@log_symm.defjvp\n',
+     '\n_LOG_RULE = _ScalarFunctionRule(func=np.log, relative_difference=_log_relative_difference)\n\n@jax.custom_jvp\ndef log_symm(A):\n    """Compute the matrix logarithm of a symmetric positive definite matrix."""\n    return symmetric_matrix_function(A, _LOG_RULE.func)\n\n@log_symm.defjvp\n'),
+    ('    primal_out = log_symm(*primals)\n    return primal_out, _symmetric_matrix_function_jvp_helper(np.log, _log_relative_difference, primals, tangents)\n\n',
+     '    primal_out = log_symm(*primals)\n    return primal_out, _symmetric_matrix_function_jvp_helper(_LOG_RULE, primals, tangents)\n\n'),
+    ('    """\n    return symmetric_matrix_function(A, lambda x: np.power(x, m))\n\n',
+     '    """\n    return symmetric_matrix_function(A, _pow_rule(m).func)\n\ndef _scalar_power(x, m):\n    return np.power(x, m)\n\n'),
+    ('\n@pow_symm.defjvp\n',
+     '\ndef _pow_rule(m):\n    """The rule for the scalar function x -> x**m, with the exponent bound."""\n    return _ScalarFunctionRule(func=partial(_scalar_power, m=m),\n                               relative_difference=partial(_pow_relative_difference, m=m))\n\n@pow_symm.defjvp\n'),
+    ('    dA, dm = tangents\n    return pow_symm(A, m), _symmetric_matrix_function_jvp_helper(lambda x: np.power(x, m), lambda l1, l2: _pow_relative_difference(l1, l2, m), (A,), (dA,))\n',
+     '    dA, dm = tangents\n    return pow_symm(A, m), _symmetric_matrix_function_jvp_helper(_pow_rule(m), (A,), (dA,))\n'),
+]
+
+R2_1_LA = [
+    ('import jax\n',
+     'from typing import Any, NamedTuple\n\nimport jax\n'),
+    ('from optimism.QuadratureRule import create_padded_quadrature_rule_1D\n\n',
+     'from optimism.QuadratureRule import create_padded_quadrature_rule_1D\n\nclass _DenmanBeaversState(NamedTuple):\n    """Loop state of the product form Denman-Beavers iteration in sqrtm_dbp."""\n    X: Any      # current approximation of the square root\n    M: Any      # product iterate, converges to the identity\n    error: Any  # Frobenius norm of M - I\n    k: Any      # iteration count\n    diff: Any   # relative change of X in the last iteration\n\n\nclass _InverseScalingState(NamedTuple):\n    """Loop state of the inverse scaling and squaring iteration in _logm_iss."""\n    X: Any          # A^(1/2^k)\n    j: Any          # number of iterations in which the Pade degree was estimated\n    k: Any          # number of square roots taken\n    m: Any          # Pade degree\n    itk: Any        # iterations used by the last square root\n    converged: Any  # whether the Pade degree has been chosen\n\n\n'),
+    ('    \n    def cond_f(loopData):\n        _,_,error,k,_ = loopData\n        p = np.array([k < maxIters, error > tol], dtype=bool)\n        return np.all(p)\n    \n    def body_f(loopData):\n        X, M, error, k, diff = loopData\n        g = np.where(diff >= scaleTol,\n                     scaling(M),\n                     1.0)\n        \n        X *= g\n        M *= g * g\n        \n        Y = X\n        N = np.linalg.inv(M)\n        I = np.identity(dim)\n        X = 0.5 * X @ (I + N)\n        M = 0.5 * (I + 0.5 * (M + N))\n',
+     '    \n    def cond_f(state):\n        p = np.array([state.k < maxIters, state.error > tol], dtype=bool)\n        return np.all(p)\n    \n    def body_f(state):\n        g = np.where(state.diff >= scaleTol,\n                     scaling(state.M),\n                     1.0)\n        \n        Y = state.X * g\n        M = state.M * (g * g)\n        \n        N = np.linalg.inv(M)\n        I = np.identity(dim)\n        X = 0.5 * Y @ (I + N)\n        M = 0.5 * (I + 0.5 * (M + N))\n'),
+    ('        diff  = np.linalg.norm(X - Y, \'fro\') / np.linalg.norm(X, \'fro\')\n        k += 1\n        return (X, M, error, k, diff)\n\n    X0        = A\n    M0        = A\n    error0    = np.finfo(np.dtype("float64")).max\n    k0        = 0\n    diff0     = 2.0*scaleTol # want to force scaling on first iteration\n    loopData0 = (X0, M0, error0, k0, diff0)\n    \n    X,_,_,k,_ = jax.lax.while_loop(cond_f, body_f, loopData0)\n\n    return X,k\n\n',
+     '        diff  = np.linalg.norm(X - Y, \'fro\') / np.linalg.norm(X, \'fro\')\n        return _DenmanBeaversState(X=X, M=M, error=error, k=state.k + 1, diff=diff)\n\n    state0 = _DenmanBeaversState(X=A,\n                                 M=A,\n                                 error=np.finfo(np.dtype("float64")).max,\n                                 k=0,\n                                 diff=2.0*scaleTol) # want to force scaling on first iteration\n    \n    final = jax.lax.while_loop(cond_f, body_f, state0)\n\n    return final.X, final.k\n\n'),
+    ('\n    def cond_f(loopData):\n        _,_,k,_,_,converged = loopData\n        conditions = np.array([~converged, k < 16], dtype = bool)\n        return conditions.all()\n',
+     '\n    def cond_f(state):\n        conditions = np.array([~state.converged, state.k < 16], dtype = bool)\n        return conditions.all()\n'),
+    ('        q += 2\n        m,j,converged = if_then_else((2 * (p - q) // 3 < itk) | (j == 2),\n                                     (p+1,j,True), (0,j,False))\n        return m,j,converged\n\n    def body_f(loopData):\n        X,j,k,m,itk,converged = loopData\n        diff = np.linalg.norm(X - np.identity(dim), ord=1)\n        m,j,converged = if_then_else(diff < c15,\n                                     compute_pade_degree(diff, j, itk),\n                                     (m, j, converged))\n        X,itk = sqrtm_dbp(X)\n        k += 1\n        return X,j,k,m,itk,converged\n\n    X   = A\n    j   = 0\n    k   = 0\n    m   = 0\n    itk = 5\n    converged = False\n    X,j,k,m,itk,converged = jax.lax.while_loop(cond_f, body_f, (X,j,k,m,itk,converged))\n    return X,k,m\n\n',
+     '        q += 2\n        degree_found = (2 * (p - q) // 3 < itk) | (j == 2)\n        m = np.where(degree_found, p + 1, 0)\n        return m, j, degree_found\n\n    def body_f(state):\n        diff = np.linalg.norm(state.X - np.identity(dim), ord=1)\n        m,j,converged = if_then_else(diff < c15,\n                                     compute_pade_degree(diff, state.j, state.itk),\n                                     (state.m, state.j, state.converged))\n        X,itk = sqrtm_dbp(state.X)\n        return state._replace(X=X, j=j, k=state.k + 1, m=m, itk=itk, converged=converged)\n\n    state0 = _InverseScalingState(X=A, j=0, k=0, m=0, itk=5, converged=False)\n    final = jax.lax.while_loop(cond_f, body_f, state0)\n    return final.X, final.k, final.m\n\n'),
+]
+
+R2_2_TM = [
+    ('\ndef eigen_sym33_non_unit(tensor):\n    """Compute eigen values and vectors of a symmetric 3x3 tensor.\n\n    Note, returned eigen vectors may not be unit length\n    Note, this routine involves high powers of the input tensor (~M^8).\n    Thus results can start to denormalize when the infinity norm of the input\n    tensor falls outside the range 1.0e-40 to 1.0e+40.\n    Outside this range use eigen_sym33_unit\n    """\n',
+     '\ndef _deviatoric_part_sym33(tensor):\n    """Symmetrize a 3x3 tensor and split off its mean normal part.\n\n    Returns the mean c1 of the diagonal, the six independent components\n    (cxx, cyy, czz, cxy, cyz, czx) of the deviator, and the squares\n    (cxy_cxy, cyz_cyz, czx_czx) of its off-diagonal components.\n    """\n'),
+    ('    czx_czx = czx*czx\n    cxx_cyy = cxx*cyy\n',
+     '    czx_czx = czx*czx\n\n    return c1, (cxx, cyy, czz, cxy, cyz, czx), (cxy_cxy, cyz_cyz, czx_czx)\n\n\ndef _extreme_deviatoric_eigenvalue(dev, dev_squares):\n    """Compute the eigenvalue of largest magnitude of a deviatoric tensor.\n\n    Uses the trigonometric solution of the characteristic equation.\n    Returns the second invariant c2 (negative unless the deviator vanishes)\n    and the eigenvalue.\n    """\n    cxx, cyy, czz, cxy, cyz, czx = dev\n    cxy_cxy, cyz_cyz, czx_czx = dev_squares\n\n    cxx_cyy = cxx*cyy\n'),
+    ('    eval2 = np.where(c2Negative, two_cos_thd3/sqrtThreeOverA, 1.0)\n    \n    crow0 = np.array([cxx - eval2, cxy,         czx        ])\n',
+     '    eval2 = np.where(c2Negative, two_cos_thd3/sqrtThreeOverA, 1.0)\n\n    return c2, eval2\n\n\ndef _pivoted_qr_rows(dev, dev_squares, eval2):\n    """QR decomposition with column pivoting of the singular matrix dev - eval2*I.\n\n    Returns the row of largest norm (k_row1), the larger of the two remaining\n    rows after orthogonalization against it (a_row2), and the reciprocals\n    of their squared norms (ki_ki, ai_ai). The rows are not normalized.\n    """\n    cxx, cyy, czz, cxy, cyz, czx = dev\n    cxy_cxy, cyz_cyz, czx_czx = dev_squares\n\n    crow0 = np.array([cxx - eval2, cxy,         czx        ])\n'),
+    ('    ai_ai = 1.0 / if_then_else(a0lea1, a1, a0)\n    \n    evec2 = np.array([k_row1[1]*a_row2[2] - k_row1[2]*a_row2[1],\n                      k_row1[2]*a_row2[0] - k_row1[0]*a_row2[2],\n                      k_row1[0]*a_row2[1] - k_row1[1]*a_row2[0]])\n\n',
+     '    ai_ai = 1.0 / if_then_else(a0lea1, a1, a0)\n\n    return k_row1, a_row2, ki_ki, ai_ai\n\n\ndef _eigen_in_deflated_plane(dev, k_row1, a_row2, ki_ki, ai_ai):\n    """Solve the 2x2 eigenproblem of dev projected on span(k_row1, a_row2).\n\n    Returns the two eigenvalues and the (non unit) eigenvector of the first.\n    """\n    cxx, cyy, czz, cxy, cyz, czx = dev\n\n'),
+    ('    evec0 = if_then_else(both_zero, a_row2, evec0)\n\n',
+     '    evec0 = if_then_else(both_zero, a_row2, evec0)\n\n    return eval0, eval1, evec0\n\n\ndef eigen_sym33_non_unit(tensor):\n    """Compute eigen values and vectors of a symmetric 3x3 tensor.\n\n    Note, returned eigen vectors may not be unit length\n    Note, this routine involves high powers of the input tensor (~M^8).\n    Thus results can start to denormalize when the infinity norm of the input\n    tensor falls outside the range 1.0e-40 to 1.0e+40.\n    Outside this range use eigen_sym33_unit\n    """\n    c1, dev, dev_squares = _deviatoric_part_sym33(tensor)\n\n    c2, eval2 = _extreme_deviatoric_eigenvalue(dev, dev_squares)\n\n    k_row1, a_row2, ki_ki, ai_ai = _pivoted_qr_rows(dev, dev_squares, eval2)\n\n    evec2 = np.array([k_row1[1]*a_row2[2] - k_row1[2]*a_row2[1],\n                      k_row1[2]*a_row2[0] - k_row1[0]*a_row2[2],\n                      k_row1[0]*a_row2[1] - k_row1[1]*a_row2[0]])\n\n    eval0, eval1, evec0 = _eigen_in_deflated_plane(dev, k_row1, a_row2, ki_ki, ai_ai)\n\n'),
+    ('\n# Helper function to define the JVP for any matrix function created from a\n',
+     '\ndef _divided_difference(df, relative_difference, x1, x2):\n    """(f(x1) - f(x2))/(x1 - x2), falling back on the derivative df when x1 == x2."""\n    x2_safe = np.where(x2 == x1, x2 + 1.0, x2)\n    return np.where(x2 == x1, df(x1), relative_difference(x1, x2_safe))\n\ndef _divided_difference_matrix(func, relative_difference, lam):\n    """Matrix of the divided differences of func between all pairs of the eigenvalues lam."""\n    df = jax.jacfwd(func)\n    h_diag = jax.vmap(df)(lam)\n    h12 = _divided_difference(df, relative_difference, lam[0], lam[1])\n    h23 = _divided_difference(df, relative_difference, lam[1], lam[2])\n    h31 = _divided_difference(df, relative_difference, lam[2], lam[0])\n    h = np.array([[h_diag[0], h12, h31],\n                  [h12, h_diag[1], h23],\n                  [h31, h23, h_diag[2]]])\n    return h\n\ndef _rotate_from_eigenbasis_symmetrized(V, h):\n    """Compute the symmetric part of V@h@V.T, entry by entry."""\n    t00 = V[0].T@h@V[0]\n    t11 = V[1].T@h@V[1]\n    t22 = V[2].T@h@V[2]\n    t01 = 0.5*(V[0].T@h@V[1] + V[1].T@h@V[0])\n    t12 = 0.5*(V[1].T@h@V[2] + V[2].T@h@V[1])\n    t20 = 0.5*(V[2].T@h@V[0] + V[0].T@h@V[2])\n\n    sol = np.array([ [t00, t01, t20],\n                     [t01, t11, t12],\n                     [t20, t12, t22] ])\n\n    return sol\n\n# Helper function to define the JVP for any matrix function created from a\n'),
+    ('\n    df = jax.jacfwd(func)\n    h_diag = jax.vmap(df)(lam)\n    def rd(x1, x2):\n        x2_safe = np.where(x2 == x1, x2 + 1.0, x2)\n        return np.where(x2 == x1, df(x1), relative_difference(x1, x2_safe))\n    h12 = rd(lam[0], lam[1])\n    h23 = rd(lam[1], lam[2])\n    h31 = rd(lam[2], lam[0])\n    h = np.array([[h_diag[0], h12, h31],\n                  [h12, h_diag[1], h23],\n                  [h31, h23, h_diag[2]]])\n    W = V.T@sym(Cdot)@V\n',
+     '\n    h = _divided_difference_matrix(func, relative_difference, lam)\n    W = V.T@sym(Cdot)@V\n'),
+    ('    h *= W\n\n    t00 = V[0].T@h@V[0]\n    t11 = V[1].T@h@V[1]\n    t22 = V[2].T@h@V[2]\n    t01 = 0.5*(V[0].T@h@V[1] + V[1].T@h@V[0])\n    t12 = 0.5*(V[1].T@h@V[2] + V[2].T@h@V[1])\n    t20 = 0.5*(V[2].T@h@V[0] + V[0].T@h@V[2])\n\n    sol = np.array([ [t00, t01, t20],\n                     [t01, t11, t12],\n                     [t20, t12, t22] ])\n\n    return sol\n\n@jax.custom_jvp\n',
+     '    h *= W\n\n    return _rotate_from_eigenbasis_symmetrized(V, h)\n\n@jax.custom_jvp\n'),
+]
+
+R2_2_LA = [
+    ('import jax\n',
+     'from functools import partial\n\nimport jax\n'),
+    ('\ndef sqrtm_dbp(A):\n',
+     '\ndef _dbp_scaling(M, dim):\n    """Determinantal scaling factor for the Denman-Beavers iteration."""\n    d  = np.abs(np.linalg.det(M))**(1.0/(2.0*dim))\n    g = 1.0 / d\n    return g\n\n\ndef _dbp_not_converged(loopData, maxIters, tol):\n    _,_,error,k,_ = loopData\n    p = np.array([k < maxIters, error > tol], dtype=bool)\n    return np.all(p)\n\n\ndef _dbp_iteration(loopData, dim, scaleTol):\n    """One step of the product form Denman-Beavers iteration, with scaling\n    as long as the iterates still change by more than scaleTol."""\n    X, M, error, k, diff = loopData\n    g = np.where(diff >= scaleTol,\n                 _dbp_scaling(M, dim),\n                 1.0)\n    \n    X *= g\n    M *= g * g\n    \n    Y = X\n    N = np.linalg.inv(M)\n    I = np.identity(dim)\n    X = 0.5 * X @ (I + N)\n    M = 0.5 * (I + 0.5 * (M + N))\n    error = np.linalg.norm(M - I, \'fro\')\n    diff  = np.linalg.norm(X - Y, \'fro\') / np.linalg.norm(X, \'fro\')\n    k += 1\n    return (X, M, error, k, diff)\n\n\ndef sqrtm_dbp(A):\n'),
+    ("\n    def scaling(M):\n        d  = np.abs(np.linalg.det(M))**(1.0/(2.0*dim))\n        g = 1.0 / d\n        return g\n    \n    def cond_f(loopData):\n        _,_,error,k,_ = loopData\n        p = np.array([k < maxIters, error > tol], dtype=bool)\n        return np.all(p)\n    \n    def body_f(loopData):\n        X, M, error, k, diff = loopData\n        g = np.where(diff >= scaleTol,\n                     scaling(M),\n                     1.0)\n        \n        X *= g\n        M *= g * g\n        \n        Y = X\n        N = np.linalg.inv(M)\n        I = np.identity(dim)\n        X = 0.5 * X @ (I + N)\n        M = 0.5 * (I + 0.5 * (M + N))\n        error = np.linalg.norm(M - I, 'fro')\n        diff  = np.linalg.norm(X - Y, 'fro') / np.linalg.norm(X, 'fro')\n        k += 1\n        return (X, M, error, k, diff)\n\n    X0        = A\n",
+     '\n    X0        = A\n'),
+    ('    \n    X,_,_,k,_ = jax.lax.while_loop(cond_f, body_f, loopData0)\n\n',
+     '    \n    X,_,_,k,_ = jax.lax.while_loop(partial(_dbp_not_converged, maxIters=maxIters, tol=tol),\n                                   partial(_dbp_iteration, dim=dim, scaleTol=scaleTol),\n                                   loopData0)\n\n'),
+    ('\ndef _logm_iss(A):\n',
+     '\ndef _compute_pade_degree(diff, j, itk):\n    """Choose the degree of the Pade approximant of the logarithm from the distance to the identity."""\n    j += 1\n    # Manually force the return type of searchsorted to be 64-bit int, because it\n    # returns 32-bit ints, ignoring the global `jax_enable_x64` flag. This looks\n    # like a bug. I filed an issue (#11375) with Jax to correct this.\n    # If they fix it, the conversions on p and q can be removed.\n    p = np.searchsorted(log_pade_coefficients[2:16], diff, side=\'right\').astype(np.int64)\n    p += 2\n    q = np.searchsorted(log_pade_coefficients[2:16], diff/2.0, side=\'right\').astype(np.int64)\n    q += 2\n    m,j,converged = if_then_else((2 * (p - q) // 3 < itk) | (j == 2),\n                                 (p+1,j,True), (0,j,False))\n    return m,j,converged\n\n\ndef _logm_iss(A):\n'),
+    ("\n    def compute_pade_degree(diff, j, itk):\n        j += 1\n        # Manually force the return type of searchsorted to be 64-bit int, because it\n        # returns 32-bit ints, ignoring the global `jax_enable_x64` flag. This looks\n        # like a bug. I filed an issue (#11375) with Jax to correct this.\n        # If they fix it, the conversions on p and q can be removed.\n        p = np.searchsorted(log_pade_coefficients[2:16], diff, side='right').astype(np.int64)\n        p += 2\n        q = np.searchsorted(log_pade_coefficients[2:16], diff/2.0, side='right').astype(np.int64)\n        q += 2\n        m,j,converged = if_then_else((2 * (p - q) // 3 < itk) | (j == 2),\n                                     (p+1,j,True), (0,j,False))\n        return m,j,converged\n\n    def body_f(loopData):\n",
+     '\n    def body_f(loopData):\n'),
+    ('        m,j,converged = if_then_else(diff < c15,\n                                     compute_pade_degree(diff, j, itk),\n                                     (m, j, converged))\n',
+     '        m,j,converged = if_then_else(diff < c15,\n                                     _compute_pade_degree(diff, j, itk),\n                                     (m, j, converged))\n'),
+    ('\ndef log_pade_pf(A, n):\n',
+     '\ndef _log_pade_increment_transposed(A, x, w):\n    """Transpose of the term of the partial fraction expansion that belongs to the quadrature point x, weight w."""\n    I = np.identity(A.shape[0])\n    B = I + x*A\n    dXT = w*np.linalg.solve(B.T, A.T)\n    return dXT\n\n\ndef log_pade_pf(A, n):\n'),
+    ('    """\n    I = np.identity(A.shape[0])\n    X = np.zeros_like(A)\n',
+     '    """\n    X = np.zeros_like(A)\n'),
+    ('\n    def get_log_inc(A, x, w):\n        B = I + x*A\n        dXT = w*np.linalg.solve(B.T, A.T)\n        return dXT\n\n    dXsTransposed = jax.vmap(get_log_inc, (None, 0, 0))(A, xs, ws)\n    X = np.sum(dXsTransposed, axis=0).T\n',
+     '\n    dXsTransposed = jax.vmap(_log_pade_increment_transposed, (None, 0, 0))(A, xs, ws)\n    X = np.sum(dXsTransposed, axis=0).T\n'),
+]
+
+R2_3_TM = [
+    ('\n    k_row1_0 = if_then_else(k0_largest, crow0[0], 0.0)   \\\n        +         if_then_else(k1_largest, crow1[0], 0.0) \\\n        +         if_then_else(k2_largest, crow2[0], 0.0)\n\n    k_row1_1 = if_then_else(k0_largest, crow0[1], 0.0)   \\\n        +         if_then_else(k1_largest, crow1[1], 0.0) \\\n        +         if_then_else(k2_largest, crow2[1], 0.0)\n\n    k_row1_2 = if_then_else(k0_largest, crow0[2], 0.0)   \\\n        +         if_then_else(k1_largest, crow1[2], 0.0) \\\n        +         if_then_else(k2_largest, crow2[2], 0.0)\n\n    k_row1 = np.array([k_row1_0, k_row1_1, k_row1_2])\n    \n    row2_0 = if_then_else(k0_largest, crow1[0], crow0[0])\n    row2_1 = if_then_else(k0_largest, crow1[1], crow0[1])\n    row2_2 = if_then_else(k0_largest, crow1[2], crow0[2])\n    row2 = np.array([row2_0, row2_1, row2_2])\n\n    row3_0 = if_then_else(k2_largest, crow1[0], crow2[0])\n    row3_1 = if_then_else(k2_largest, crow1[1], crow2[1])\n    row3_2 = if_then_else(k2_largest, crow1[2], crow2[2])\n    row3 = np.array([row3_0, row3_1, row3_2])\n\n',
+     '\n    # pivot row: the row of largest norm\n    k_row1 = np.array([if_then_else(k0_largest, crow0[c], 0.0)\n                       + if_then_else(k1_largest, crow1[c], 0.0)\n                       + if_then_else(k2_largest, crow2[c], 0.0) for c in range(3)])\n    \n    # the two remaining rows\n    row2 = np.array([if_then_else(k0_largest, crow1[c], crow0[c]) for c in range(3)])\n    row3 = np.array([if_then_else(k2_largest, crow1[c], crow2[c]) for c in range(3)])\n\n'),
+    ('\n    k_atr11 = cxx*k_row1[0] + cxy*k_row1[1] + czx*k_row1[2]\n    k_atr21 = cxy*k_row1[0] + cyy*k_row1[1] + cyz*k_row1[2]\n    k_atr31 = czx*k_row1[0] + cyz*k_row1[1] + czz*k_row1[2]\n\n    a_atr12 = cxx*a_row2[0] + cxy*a_row2[1] + czx*a_row2[2]\n    a_atr22 = cxy*a_row2[0] + cyy*a_row2[1] + cyz*a_row2[2]\n    a_atr32 = czx*a_row2[0] + cyz*a_row2[1] + czz*a_row2[2]\n\n',
+     '\n    # products of the deviator with the two basis vectors of the deflated plane\n    dev_rows = ((cxx, cxy, czx),\n                (cxy, cyy, cyz),\n                (czx, cyz, czz))\n    k_atr11, k_atr21, k_atr31 = [r[0]*k_row1[0] + r[1]*k_row1[1] + r[2]*k_row1[2] for r in dev_rows]\n    a_atr12, a_atr22, a_atr32 = [r[0]*a_row2[0] + r[1]*a_row2[1] + r[2]*a_row2[2] for r in dev_rows]\n\n'),
+    ('\n    eval0 = eval0 + c1\n    eval1 = eval1 + c1\n    eval2 = eval2 + c1\n    \n',
+     '\n    shifted_evals = [ev + c1 for ev in (eval0, eval1, eval2)]\n    \n'),
+    ('    \n    eval0 = if_then_else(c2lsmall_neg, eval0, c1)\n    eval1 = if_then_else(c2lsmall_neg, eval1, c1)\n    eval2 = if_then_else(c2lsmall_neg, eval2, c1)\n\n    evec0 = if_then_else(c2lsmall_neg, evec0, np.array([1.0, 0.0, 0.0]))\n    evec1 = if_then_else(c2lsmall_neg, evec1, np.array([0.0, 1.0, 0.0]))\n    evec2 = if_then_else(c2lsmall_neg, evec2, np.array([0.0, 0.0, 1.0]))\n    \n    evals = np.array([eval0, eval1, eval2])\n    evecs = np.column_stack((evec0,evec1,evec2))\n\n',
+     '    \n    # a (numerically) spherical tensor gets the triple eigenvalue c1 and the\n    # cartesian basis\n    cartesian_basis = (np.array([1.0, 0.0, 0.0]), np.array([0.0, 1.0, 0.0]), np.array([0.0, 0.0, 1.0]))\n    selected_evals = [if_then_else(c2lsmall_neg, ev, c1) for ev in shifted_evals]\n    selected_evecs = [if_then_else(c2lsmall_neg, evec, e)\n                      for evec, e in zip((evec0, evec1, evec2), cartesian_basis)]\n    \n    evals = np.array(selected_evals)\n    evecs = np.column_stack(selected_evecs)\n\n'),
+    ('    \n    evec0 = evecs[:,0]/np.linalg.norm(evecs[:,0])\n    evec1 = evecs[:,1]/np.linalg.norm(evecs[:,1])\n    evec2 = evecs[:,2]/np.linalg.norm(evecs[:,2])\n    \n    evecs = np.column_stack((evec0,evec1,evec2))\n    evals = cmax*evals\n',
+     '    \n    evecs = np.column_stack([evecs[:,i]/np.linalg.norm(evecs[:,i]) for i in range(3)])\n    evals = cmax*evals\n'),
+    ('        return np.where(x2 == x1, df(x1), relative_difference(x1, x2_safe))\n    h12 = rd(lam[0], lam[1])\n    h23 = rd(lam[1], lam[2])\n    h31 = rd(lam[2], lam[0])\n    h = np.array([[h_diag[0], h12, h31],\n',
+     '        return np.where(x2 == x1, df(x1), relative_difference(x1, x2_safe))\n    cyclic_pairs = ((0, 1), (1, 2), (2, 0))\n    h12, h23, h31 = [rd(lam[i], lam[j]) for i, j in cyclic_pairs]\n    h = np.array([[h_diag[0], h12, h31],\n'),
+    ('\n    t00 = V[0].T@h@V[0]\n    t11 = V[1].T@h@V[1]\n    t22 = V[2].T@h@V[2]\n    t01 = 0.5*(V[0].T@h@V[1] + V[1].T@h@V[0])\n    t12 = 0.5*(V[1].T@h@V[2] + V[2].T@h@V[1])\n    t20 = 0.5*(V[2].T@h@V[0] + V[0].T@h@V[2])\n\n',
+     '\n    t00, t11, t22 = [V[i].T@h@V[i] for i in range(3)]\n    t01, t12, t20 = [0.5*(V[i].T@h@V[j] + V[j].T@h@V[i]) for i, j in cyclic_pairs]\n\n'),
+]
+
+R2_3_LA = [
+    ('    scaleTol   = 0.01\n\n',
+     '    scaleTol   = 0.01\n    I          = np.identity(dim)\n\n'),
+    ('        N = np.linalg.inv(M)\n        I = np.identity(dim)\n        X = 0.5 * X @ (I + N)\n',
+     '        N = np.linalg.inv(M)\n        X = 0.5 * X @ (I + N)\n'),
+    ('    """\n    dim = A.shape[0]\n    c15 = log_pade_coefficients[15]\n',
+     '    """\n    I = np.identity(A.shape[0])\n    c15 = log_pade_coefficients[15]\n'),
+    ("        # If they fix it, the conversions on p and q can be removed.\n        p = np.searchsorted(log_pade_coefficients[2:16], diff, side='right').astype(np.int64)\n        p += 2\n        q = np.searchsorted(log_pade_coefficients[2:16], diff/2.0, side='right').astype(np.int64)\n        q += 2\n        m,j,converged = if_then_else((2 * (p - q) // 3 < itk) | (j == 2),\n",
+     "        # If they fix it, the conversions on p and q can be removed.\n        p, q = [np.searchsorted(log_pade_coefficients[2:16], d, side='right').astype(np.int64) + 2\n                for d in (diff, diff/2.0)]\n        m,j,converged = if_then_else((2 * (p - q) // 3 < itk) | (j == 2),\n"),
+    ('        X,j,k,m,itk,converged = loopData\n        diff = np.linalg.norm(X - np.identity(dim), ord=1)\n        m,j,converged = if_then_else(diff < c15,\n',
+     '        X,j,k,m,itk,converged = loopData\n        diff = np.linalg.norm(X - I, ord=1)\n        m,j,converged = if_then_else(diff < c15,\n'),
+]
+
+#  K  the rules take the eigen decomposition themselves and hand (lam, V) to the tangent helper
+#  L  dict dispatch: a table kind -> {scalar function, relative difference} looked up by the primal and by the rule
+#  M  rule object: a plain class with __init__ and methods (derivative, divided difference with the fallback)
+REF_K_TM = [
+    ('# error as lam1 -> lam2.\ndef _symmetric_matrix_function_jvp_helper(func, relative_difference, primals, tangents):\n    C, = primals\n    Cdot, = tangents\n\n    # it is tempting to compute the primal output here as \n    # V@np.diag(func(lam))@V.T\n    # and avoid the cost of doing the eigendecomp twice.\n    # Hoever, this will not attach the custom jvp to the primal output\n    # computation, making higher order derivatives wrong!\n    lam, V = eigen_sym33_unit(C)\n\n',
+     '# error as lam1 -> lam2.\ndef _symmetric_matrix_function_jvp_helper(func, relative_difference, spectrum, Cdot):\n    lam, V = spectrum\n\n'),
+    ('    primal_out = sqrt_symm(*primals)\n    return primal_out, _symmetric_matrix_function_jvp_helper(Math.safe_sqrt, _sqrt_relative_difference, primals, tangents)\n\n',
+     '    primal_out = sqrt_symm(*primals)\n    return primal_out, _symmetric_matrix_function_jvp_helper(Math.safe_sqrt, _sqrt_relative_difference, eigen_sym33_unit(primals[0]), tangents[0])\n\n'),
+    ('    primal_out = exp_symm(*primals)\n    return primal_out, _symmetric_matrix_function_jvp_helper(np.exp, _exp_relative_difference, primals, tangents)\n\n',
+     '    primal_out = exp_symm(*primals)\n    return primal_out, _symmetric_matrix_function_jvp_helper(np.exp, _exp_relative_difference, eigen_sym33_unit(primals[0]), tangents[0])\n\n'),
+    ('    primal_out = log_symm(*primals)\n    return primal_out, _symmetric_matrix_function_jvp_helper(np.log, _log_relative_difference, primals, tangents)\n\n',
+     '    primal_out = log_symm(*primals)\n    return primal_out, _symmetric_matrix_function_jvp_helper(np.log, _log_relative_difference, eigen_sym33_unit(primals[0]), tangents[0])\n\n'),
+    ('    dA, dm = tangents\n    return pow_symm(A, m), _symmetric_matrix_function_jvp_helper(lambda x: np.power(x, m), lambda l1, l2: _pow_relative_difference(l1, l2, m), (A,), (dA,))\n',
+     '    dA, dm = tangents\n    return pow_symm(A, m), _symmetric_matrix_function_jvp_helper(lambda x: np.power(x, m), lambda l1, l2: _pow_relative_difference(l1, l2, m), eigen_sym33_unit(A), dA)\n'),
+]
+
+REF_L_TM = [
+    ('\n@jax.custom_jvp\ndef sqrt_symm(A):\n    """Square root of a symmetric positive semi-definite tensor."""\n    return symmetric_matrix_function(A, Math.safe_sqrt)\n\ndef _sqrt_relative_difference(lam1, lam2):\n    return 1/(np.sqrt(lam1) + np.sqrt(lam2))\n\n@sqrt_symm.defjvp\ndef _sqrt_symm_jvp(primals, tangents):\n    primal_out = sqrt_symm(*primals)\n    return primal_out, _symmetric_matrix_function_jvp_helper(Math.safe_sqrt, _sqrt_relative_difference, primals, tangents)\n\n\n@jax.custom_jvp\ndef exp_symm(A):\n    """Compute the matrix exponential of a symmetric matrix."""\n    return symmetric_matrix_function(A, np.exp)\n\n',
+     '\ndef _sqrt_relative_difference(lam1, lam2):\n    return 1/(np.sqrt(lam1) + np.sqrt(lam2))\n\n'),
+    ('    return np.exp(lam2)*np.expm1(arg)/arg\n\n@exp_symm.defjvp\ndef _exp_symm_jvp(primals, tangents):\n    primal_out = exp_symm(*primals)\n    return primal_out, _symmetric_matrix_function_jvp_helper(np.exp, _exp_relative_difference, primals, tangents)\n\n\n@jax.custom_jvp\ndef log_symm(A):\n    """Compute the matrix logarithm of a symmetric positive definite matrix."""\n    return symmetric_matrix_function(A, np.log)\n\n',
+     '    return np.exp(lam2)*np.expm1(arg)/arg\n\n'),
+    ('\n@log_symm.defjvp\n',
+     '\n_SPECTRAL = {\n    "sqrt": {"f": Math.safe_sqrt, "quotient": _sqrt_relative_difference},\n    "exp": {"f": np.exp, "quotient": _exp_relative_difference},\n    "log": {"f": np.log, "quotient": _log_relative_difference},\n}\n\ndef _spectral_value(kind, A):\n    return symmetric_matrix_function(A, _SPECTRAL[kind]["f"])\n\ndef _spectral_tangent(kind, primals, tangents):\n    entry = _SPECTRAL.get(kind)\n    return _symmetric_matrix_function_jvp_helper(entry["f"], entry["quotient"], primals, tangents)\n\n@jax.custom_jvp\ndef sqrt_symm(A):\n    """Square root of a symmetric positive semi-definite tensor."""\n    return _spectral_value("sqrt", A)\n\n@sqrt_symm.defjvp\ndef _sqrt_symm_jvp(primals, tangents):\n    primal_out = sqrt_symm(*primals)\n    return primal_out, _spectral_tangent("sqrt", primals, tangents)\n\n\n@jax.custom_jvp\ndef exp_symm(A):\n    """Compute the matrix exponential of a symmetric matrix."""\n    return _spectral_value("exp", A)\n\n@exp_symm.defjvp\ndef _exp_symm_jvp(primals, tangents):\n    primal_out = exp_symm(*primals)\n    return primal_out, _spectral_tangent("exp", primals, tangents)\n\n\n@jax.custom_jvp\ndef log_symm(A):\n    """Compute the matrix logarithm of a symmetric positive definite matrix."""\n    return _spectral_value("log", A)\n\n@log_symm.defjvp\n'),
+    ('    primal_out = log_symm(*primals)\n    return primal_out, _symmetric_matrix_function_jvp_helper(np.log, _log_relative_difference, primals, tangents)\n\n',
+     '    primal_out = log_symm(*primals)\n    return primal_out, _spectral_tangent("log", primals, tangents)\n\n'),
+]
+
+REF_M_TM = [
+    ('# error as lam1 -> lam2.\ndef _symmetric_matrix_function_jvp_helper(func, relative_difference, primals, tangents):\n    C, = primals\n',
+     '# error as lam1 -> lam2.\nclass _SpectralRule:\n    """A scalar function and the quotient needed to differentiate the matrix function made from it."""\n    def __init__(self, func, relative_difference):\n        self.func = func\n        self.relative_difference = relative_difference\n\n    def derivative(self):\n        return jax.jacfwd(self.func)\n\n    def divided_difference(self, x1, x2):\n        x2_safe = np.where(x2 == x1, x2 + 1.0, x2)\n        return np.where(x2 == x1, self.derivative()(x1), self.relative_difference(x1, x2_safe))\n\n\ndef _symmetric_matrix_function_jvp_helper(rule, primals, tangents):\n    C, = primals\n'),
+    ('\n    df = jax.jacfwd(func)\n    h_diag = jax.vmap(df)(lam)\n    def rd(x1, x2):\n        x2_safe = np.where(x2 == x1, x2 + 1.0, x2)\n        return np.where(x2 == x1, df(x1), relative_difference(x1, x2_safe))\n    h12 = rd(lam[0], lam[1])\n    h23 = rd(lam[1], lam[2])\n    h31 = rd(lam[2], lam[0])\n    h = np.array([[h_diag[0], h12, h31],\n',
+     '\n    h_diag = jax.vmap(rule.derivative())(lam)\n    h12 = rule.divided_difference(lam[0], lam[1])\n    h23 = rule.divided_difference(lam[1], lam[2])\n    h31 = rule.divided_difference(lam[2], lam[0])\n    h = np.array([[h_diag[0], h12, h31],\n'),
+    ('    return sol\n\n@jax.custom_jvp\ndef sqrt_symm(A):\n',
+     '    return sol\n\ndef _sqrt_relative_difference(lam1, lam2):\n    return 1/(np.sqrt(lam1) + np.sqrt(lam2))\n\n_SQRT = _SpectralRule(Math.safe_sqrt, _sqrt_relative_difference)\n\n@jax.custom_jvp\ndef sqrt_symm(A):\n'),
+    ('    """Square root of a symmetric positive semi-definite tensor."""\n    return symmetric_matrix_function(A, Math.safe_sqrt)\n\ndef _sqrt_relative_difference(lam1, lam2):\n    return 1/(np.sqrt(lam1) + np.sqrt(lam2))\n\n',
+     '    """Square root of a symmetric positive semi-definite tensor."""\n    return symmetric_matrix_function(A, _SQRT.func)\n\n'),
+    ('    primal_out = sqrt_symm(*primals)\n    return primal_out, _symmetric_matrix_function_jvp_helper(Math.safe_sqrt, _sqrt_relative_difference, primals, tangents)\n\n',
+     '    primal_out = sqrt_symm(*primals)\n    return primal_out, _symmetric_matrix_function_jvp_helper(_SQRT, primals, tangents)\n\n'),
+    ('    primal_out = exp_symm(*primals)\n    return primal_out, _symmetric_matrix_function_jvp_helper(np.exp, _exp_relative_difference, primals, tangents)\n\n',
+     '    primal_out = exp_symm(*primals)\n    return primal_out, _symmetric_matrix_function_jvp_helper(_SpectralRule(np.exp, _exp_relative_difference), primals, tangents)\n\n'),
+    ('    primal_out = log_symm(*primals)\n    return primal_out, _symmetric_matrix_function_jvp_helper(np.log, _log_relative_difference, primals, tangents)\n\n',
+     '    primal_out = log_symm(*primals)\n    return primal_out, _symmetric_matrix_function_jvp_helper(_SpectralRule(relative_difference=_log_relative_difference, func=np.log), primals, tangents)\n\n'),
+    ('    dA, dm = tangents\n    return pow_symm(A, m), _symmetric_matrix_function_jvp_helper(lambda x: np.power(x, m), lambda l1, l2: _pow_relative_difference(l1, l2, m), (A,), (dA,))\n',
+     '    dA, dm = tangents\n    return pow_symm(A, m), _symmetric_matrix_function_jvp_helper(_SpectralRule(lambda x: np.power(x, m), lambda l1, l2: _pow_relative_difference(l1, l2, m)), (A,), (dA,))\n'),
+]
+
+# ---- /verif/preserving/C08-r6 (helper signature (func, rd, C, Cdot), body split in three, rd closure at module level, partial in pow_symm,
+#      final stage of the solver moved to a private function)
+R2_C08R6_TM = [
+    ('"""Provide differentiable operations on 3x3 tensors."""\n\n',
+     '"""Provide differentiable operations on 3x3 tensors."""\n\nfrom functools import partial\n\n'),
+    ('\n    eval0 = eval0 + c1\n',
+     '\n    return _shift_and_sort_eigenpairs(c1, c2, eval0, eval1, eval2, evec0, evec1, evec2)\n\n\ndef _shift_and_sort_eigenpairs(c1, c2, eval0, eval1, eval2, evec0, evec1, evec2):\n    """Final stage of eigen_sym33_non_unit.\n\n    Takes the eigenpairs of the deviatoric part of the tensor, adds the\n    spherical part c1 back to the eigenvalues, falls back on a triple\n    eigenvalue c1 with the coordinate axes as eigenvectors when the second\n    invariant c2 of the deviator (which is non-positive) vanishes,\n    and sorts the pairs by ascending eigenvalue.\n    """\n    eval0 = eval0 + c1\n'),
+    ('\n# Helper function to define the JVP for any matrix function created from a\n# scalar function func.\n',
+     '\n# Helper functions to define the JVP for any matrix function created from a\n# scalar function func.\n'),
+    ('# error as lam1 -> lam2.\ndef _symmetric_matrix_function_jvp_helper(func, relative_difference, primals, tangents):\n    C, = primals\n    Cdot, = tangents\n\n    # it is tempting to compute the primal output here as \n',
+     '# error as lam1 -> lam2.\ndef _symmetric_matrix_function_jvp_helper(func, relative_difference, C, Cdot):\n    # it is tempting to compute the primal output here as \n'),
+    ('\n    df = jax.jacfwd(func)\n    h_diag = jax.vmap(df)(lam)\n    def rd(x1, x2):\n        x2_safe = np.where(x2 == x1, x2 + 1.0, x2)\n        return np.where(x2 == x1, df(x1), relative_difference(x1, x2_safe))\n    h12 = rd(lam[0], lam[1])\n',
+     "\n    h = _spectral_difference_quotients(func, relative_difference, lam)\n    W = V.T@sym(Cdot)@V\n    h *= W\n\n    return _rotate_to_global_frame(V, h)\n\n\ndef _safe_relative_difference(df, relative_difference, x1, x2):\n    # (func(x1) - func(x2))/(x1 - x2), falling back on the derivative df of func\n    # when the arguments coincide\n    x2_safe = np.where(x2 == x1, x2 + 1.0, x2)\n    return np.where(x2 == x1, df(x1), relative_difference(x1, x2_safe))\n\n\ndef _spectral_difference_quotients(func, relative_difference, lam):\n    # Symmetric matrix of the derivative of the matrix function in the principal\n    # frame: func'(lam_i) on the diagonal, difference quotients of func between\n    # the eigenvalues lam_i, lam_j off the diagonal.\n    df = jax.jacfwd(func)\n    h_diag = jax.vmap(df)(lam)\n    rd = partial(_safe_relative_difference, df, relative_difference)\n    h12 = rd(lam[0], lam[1])\n"),
+    ('    h31 = rd(lam[2], lam[0])\n    h = np.array([[h_diag[0], h12, h31],\n                  [h12, h_diag[1], h23],\n                  [h31, h23, h_diag[2]]])\n    W = V.T@sym(Cdot)@V\n    h *= W\n\n    t00 = V[0].T@h@V[0]\n',
+     '    h31 = rd(lam[2], lam[0])\n    return np.array([[h_diag[0], h12, h31],\n                     [h12, h_diag[1], h23],\n                     [h31, h23, h_diag[2]]])\n\n\ndef _rotate_to_global_frame(V, h):\n    # Symmetrized components of h, given in the principal frame V, in the global frame\n    t00 = V[0].T@h@V[0]\n'),
+    ('def _sqrt_symm_jvp(primals, tangents):\n    primal_out = sqrt_symm(*primals)\n    return primal_out, _symmetric_matrix_function_jvp_helper(Math.safe_sqrt, _sqrt_relative_difference, primals, tangents)\n\n',
+     'def _sqrt_symm_jvp(primals, tangents):\n    A, = primals\n    dA, = tangents\n    return sqrt_symm(A), _symmetric_matrix_function_jvp_helper(Math.safe_sqrt, _sqrt_relative_difference, A, dA)\n\n'),
+    ('def _exp_symm_jvp(primals, tangents):\n    primal_out = exp_symm(*primals)\n    return primal_out, _symmetric_matrix_function_jvp_helper(np.exp, _exp_relative_difference, primals, tangents)\n\n',
+     'def _exp_symm_jvp(primals, tangents):\n    A, = primals\n    dA, = tangents\n    return exp_symm(A), _symmetric_matrix_function_jvp_helper(np.exp, _exp_relative_difference, A, dA)\n\n'),
+    ('def _log_symm_jvp(primals, tangents):\n    primal_out = log_symm(*primals)\n    return primal_out, _symmetric_matrix_function_jvp_helper(np.log, _log_relative_difference, primals, tangents)\n\n',
+     'def _log_symm_jvp(primals, tangents):\n    A, = primals\n    dA, = tangents\n    return log_symm(A), _symmetric_matrix_function_jvp_helper(np.log, _log_relative_difference, A, dA)\n\n'),
+    ('    """\n    return symmetric_matrix_function(A, lambda x: np.power(x, m))\n\n',
+     '    """\n    return symmetric_matrix_function(A, partial(_scalar_power, m=m))\n\ndef _scalar_power(x, m):\n    return np.power(x, m)\n\n'),
+    ('    dA, dm = tangents\n    return pow_symm(A, m), _symmetric_matrix_function_jvp_helper(lambda x: np.power(x, m), lambda l1, l2: _pow_relative_difference(l1, l2, m), (A,), (dA,))\n',
+     '    dA, dm = tangents\n    return pow_symm(A, m), _symmetric_matrix_function_jvp_helper(partial(_scalar_power, m=m), partial(_pow_relative_difference, m=m), A, dA)\n'),
+]
+
+#  N  the eigen solvers return a NamedTuple (values, vectors); callers read the fields by name
+REF_N_TM = [
+    ('"""Provide differentiable operations on 3x3 tensors."""\n\n',
+     '"""Provide differentiable operations on 3x3 tensors."""\n\nfrom typing import Any, NamedTuple\n\n'),
+    ('    return dudX\n\n',
+     '    return dudX\n\nclass EigenPairs(NamedTuple):\n    """Eigenvalues in ascending order and the matrix whose columns are the eigenvectors."""\n    values: Any\n    vectors: Any\n\n\n'),
+    ('    \n    return evals[idx],evecs[:,idx]\n\n',
+     '    \n    return EigenPairs(values=evals[idx], vectors=evecs[:,idx])\n\n'),
+    ('   \n    evals, evecs = eigen_sym33_non_unit(scaledTensor)\n    \n',
+     '   \n    scaled = eigen_sym33_non_unit(scaledTensor)\n    evals = scaled.values\n    evecs = scaled.vectors\n    \n'),
+    ('\n    return (evals,evecs)\n\n',
+     '\n    return EigenPairs(evals, evecs)\n\n'),
+    ('    """Create a function on symmetric matrices from a scalar function."""\n    lam, V = eigen_sym33_unit(A)\n    return V@np.diag(func(lam))@V.T\n\n',
+     '    """Create a function on symmetric matrices from a scalar function."""\n    spectrum = eigen_sym33_unit(A)\n    return spectrum.vectors@np.diag(func(spectrum.values))@spectrum.vectors.T\n\n'),
+]
+
